@@ -189,7 +189,11 @@ class SMUserList(UserList, ABC):
 
         elif isinstance(arg, (list, tuple)):
             # it's a list of things
-            if isinstance(arg[0], np.ndarray):
+            if len(arg) == 0:
+                # an empty list: an instance with zero values
+                self.data = []
+
+            elif isinstance(arg[0], np.ndarray):
                 # possibly a list of numpy arrays
                 data = [self._import(x, check=check) for x in arg]
                 if any(x is None for x in data):
